@@ -1408,7 +1408,14 @@ class OptionStore:
                 # to keep the old options. If they are not valid keep the new
                 # defaults but warn.
                 self._link_to_parent(key, value)
+                # An option the user has detached from its parent (by giving
+                # it a value of its own) stays detached.
+                value.yielding = value.yielding and oldval.yielding
                 self.options[key] = value
+                # Options yielding to the replaced object follow the new one.
+                for other in self.options.values():
+                    if other.parent is oldval:
+                        other.parent = value
                 try:
                     value.set_value(oldval.value)
                 except MesonException:
